@@ -428,6 +428,43 @@ class AsHashEdges(Part):
         return res
 
 
+class ImagesThatLookSpecial(Part):
+    name = "addresses_whose_image_is_a_mask_or_preserved"
+    desc = "for every mask-shaped value M (and preserved-network member) the one address X with image M, on lines before and after lines that carry M itself, anonymize and undo: every line comes back"
+
+    def __init__(self, tier, seed):
+        self.tier, self.seed = tier, seed
+
+    def cases(self):
+        return [{"salt": s, "B": B, "undo": u} for s in ("saltForTest", "demoSalt", "seed%d" % self.seed) for B in (0, 8)
+                for u in (False, True)]
+
+    def run(self, case):
+        import ipaddress
+
+        from mc import refs
+        from props import ipdom
+
+        res = Res()
+        nets = ["11.11.0.0/16"]
+        ref = ipdom.make_v4(["md5", case["salt"]], case["B"], None, nets)
+        specials = sorted(refs.MASKS32)[:: (2 if self.tier == "quick" else 1)] + [int(ipaddress.IPv4Address("11.11.5.5"))]
+        lines = []
+        for mval in specials:
+            x = ref.anonymize(mval) if case["undo"] else ref.deanonymize(mval)
+            t, xt = refs.v4_text(mval), refs.v4_text(x)
+            lines += ["ip address 10.1.1.1 %s" % t, " peer %s via %s" % (xt, xt), "route %s %s" % (xt, t), "mask %s" % t]
+        feats = dict(anon_pwd=False, anon_ip=not case["undo"], undo_ip_anon=case["undo"], preserve_networks=nets,
+                     preserve_suffix_v4=case["B"], preserve_suffix_v6=case["B"])
+        for order, ls in (("mask-first", lines), ("image-first", lines[::-1])):
+            if "lines" in case:
+                ls = case["lines"]
+            judge(res, ls, case["salt"], feats, {"salt": case["salt"], "B": case["B"], "undo": case["undo"]},
+                  "image-is-special|" + order)
+        res.samples.append({"case": case, "lines": len(lines)})
+        return res
+
+
 def parts(tier, seed):
     return [ShortStrings(tier, seed), SlotFillers(tier, seed), LongRuns(tier, seed), Salts(tier, seed),
-            FileLevel(tier, seed), Volume(tier, seed), CaseVariants(tier, seed), AsHashEdges(tier, seed)]
+            FileLevel(tier, seed), Volume(tier, seed), CaseVariants(tier, seed), AsHashEdges(tier, seed), ImagesThatLookSpecial(tier, seed)]
